@@ -115,6 +115,14 @@ func mutSFO(r *rng, titleID string, kind int) []byte {
 		b = []byte{}
 	case 12:
 		b = b[:20]
+	case 13:
+		// declared value length around the parser's 64 KiB bound, with the bytes really there
+		put(tidx+4, []uint32{65535, 65536, 65537, 70000}[pickVariant(13, 4)])
+		b = append(b, bytes.Repeat([]byte{'V'}, 70100)...)
+	case 14:
+		// a key of 510..513 bytes before TITLE_ID: keys are read through a 512-byte window
+		klen := []int{510, 511, 512, 513}[pickVariant(14, 4)]
+		b = sfoBytes([][2]string{{strings.Repeat("K", klen), "x"}, {"TITLE_ID", titleID}})
 	}
 	return b
 }
@@ -296,7 +304,7 @@ func c04Worlds(o *out, r *rng, thorough bool) {
 		var reqs []creq
 		if r.chance(50) {
 			t.add(tnode{path: "/GAMES", kind: 'd', mtime: genMtime(r)})
-			sk := (i/2)%14 - 1 // -1 = no PS3_GAME at all; kinds and their special values are cycled, not drawn
+			sk := (i/2)%16 - 1 // -1 = no PS3_GAME at all; kinds and their special values are cycled, not drawn
 			tid := hostileTitleIDs[0]
 			if sk <= 0 || r.chance(30) {
 				tid = hostileTitleIDs[r.intn(len(hostileTitleIDs))]
@@ -325,6 +333,18 @@ func c04Worlds(o *out, r *rng, thorough bool) {
 			reqs = append(reqs, creq{op: opOpenDir, path: "/PS3ISO"}, creq{op: opReadDirEntry}, creq{op: opReadDirEntryV2}, creq{op: opReadDirEntry}, creq{op: opReadDirEntry})
 		}
 		runWithOracle(o, t, false, reqs, fmt.Sprintf("w%d", i), nil)
+	}
+	// the parser's own limits (declared value length, key length), every variant, always in PS3 mode
+	for _, kind := range []int{13, 14} {
+		for v := 0; v < 4; v++ {
+			t := &tree{}
+			t.add(tnode{path: "/", kind: 'd', mtime: genMtime(r)})
+			t.add(tnode{path: "/GAMES", kind: 'd', mtime: genMtime(r)})
+			sfoVariant[kind] = v
+			dir := hostileGame(t, r, "lim", kind, hostileTitleIDs[0], o)
+			reqs := []creq{{op: opOpenFile, path: "/***PS3***" + dir}, {op: opReadFile, a: 4096, b: 32768}, {op: opReadFile, a: 300, b: 16*2048 + 30}}
+			runWithOracle(o, t, false, reqs, fmt.Sprintf("sfolim%d_%d", kind, v), nil)
+		}
 	}
 }
 
@@ -588,13 +608,13 @@ func hostileRootTree(r *rng, o *out) (*tree, *tnode) {
 	t.add(tnode{path: "/", kind: 'd', mtime: genMtime(r)})
 	t.add(tnode{path: "/GAMES", kind: 'd', mtime: genMtime(r)})
 	t.add(tnode{path: "/PS3ISO", kind: 'd', mtime: genMtime(r)})
-	for k := -1; k <= 12; k++ {
+	for k := -1; k <= 14; k++ {
 		hostileGame(t, r, fmt.Sprintf("g%02d", k+1), k, hostileTitleIDs[r.intn(len(hostileTitleIDs))], o)
 	}
 	for i, tid := range hostileTitleIDs {
 		hostileGame(t, r, fmt.Sprintf("t%02d", i), 0, tid, o)
 	}
-	for _, kv := range [][2]int{{3, 6}, {4, 7}, {5, 7}, {6, 12}, {7, 7}} { // every special value of every numeric field
+	for _, kv := range [][2]int{{3, 6}, {4, 7}, {5, 7}, {6, 12}, {7, 7}, {13, 4}, {14, 4}} { // every special value of every numeric field
 		for v := 0; v < kv[1]; v++ {
 			hostileGame(t, r, fmt.Sprintf("k%dv%02d", kv[0], v), kv[0], hostileTitleIDs[0], o)
 		}
